@@ -1,6 +1,7 @@
 package symex
 
 import (
+	"runtime"
 	"fmt"
 	"os"
 	"runtime/debug"
@@ -105,6 +106,7 @@ type sleepEntry struct {
 
 type runtimeState struct {
 	ex       *Exec
+	lastArmed *smt.Term // duration argument of the most recent timer creation / Reset (vLastTimerDuration)
 	gs       []*Goroutine
 	cur      *Goroutine
 	aborting bool
@@ -192,6 +194,9 @@ func (rt *runtimeState) spawn(fr *frame, fn Value, args []Value) {
 					return
 				}
 				// forward engine panics and uncaught target panics to the main goroutine
+				if _, isRT := r.(runtime.Error); isRT && os.Getenv("VERIF_DEBUG") != "" {
+					fmt.Fprintf(os.Stderr, "ENGINE-BUG in g%d: %v\n%s\n", g.id, r, debug.Stack())
+				}
 				if rt.forward == nil {
 					rt.forward = r
 				}
